@@ -9,6 +9,7 @@ import (
 	"sort"
 	"strconv"
 	"strings"
+	"sync"
 	"time"
 )
 
@@ -99,6 +100,8 @@ func main() {
 		os.Exit(runDump(repo, verif, os.Args[2], os.Args[3]))
 	case "replay":
 		os.Exit(runReplayFile(repo, verif, os.Args[2]))
+	case "stability":
+		os.Exit(runStability(repo, verif, os.Args[2]))
 	}
 	fmt.Fprintln(os.Stderr, "unknown command")
 	os.Exit(2)
@@ -538,4 +541,63 @@ func writeReplayFile(path string, o *Obligation, note string) {
 		"solver": o.Solver, "result": o.Result, "solver_output": o.Model, "note": note, "smt": o.Script,
 	}, "", " ")
 	os.WriteFile(path, b, 0o644)
+}
+
+// runStability: development aid (not a registered check). Every obligation of the property that discharges is re-run
+// under three other z3 seeds; obligations that some seed loses (and cvc5 does not prove) are printed as FRAGILE.
+func runStability(repo, verif, id string) int {
+	pc, err := loadProp(verif, id)
+	if err != nil {
+		fmt.Fprintln(os.Stderr, err)
+		return 2
+	}
+	e := NewEngine(repo, verif)
+	if err := e.Load(pc.Packages); err != nil {
+		fmt.Fprintln(os.Stderr, "load:", err)
+		return 2
+	}
+	var all []*Obligation
+	for _, f := range pc.Functions {
+		_, obls := e.VerifyFunc(id, modPath+"/"+f)
+		all = append(all, obls...)
+	}
+	work := filepath.Join(verif, "work", "stability", id)
+	os.RemoveAll(work)
+	os.MkdirAll(work, 0o755)
+	defer os.RemoveAll(work)
+	SolveAll(work, all, 10, runtime.NumCPU())
+	var todo []*Obligation
+	for _, o := range all {
+		if !o.Cover && o.Kind != "ground" && o.Result == "unsat" && o.Solver != "trivial" {
+			todo = append(todo, o)
+		}
+	}
+	type res struct {
+		o    *Obligation
+		ok   int
+		cvc5 bool
+	}
+	out := make([]res, len(todo))
+	sem := make(chan struct{}, runtime.NumCPU()/2)
+	var wg sync.WaitGroup
+	for i, o := range todo {
+		wg.Add(1)
+		sem <- struct{}{}
+		go func(i int, o *Obligation) {
+			defer wg.Done()
+			defer func() { <-sem }()
+			ok, c := seedStability(work, o, []int{7, 42, 1234}, 10)
+			out[i] = res{o, ok, c}
+		}(i, o)
+	}
+	wg.Wait()
+	fragile := 0
+	for _, r := range out {
+		if r.ok < 3 {
+			fragile++
+			fmt.Printf("FRAGILE %s seeds-ok=%d/3 cvc5=%v first-run=%dms by %s\n", r.o.Name, r.ok, r.cvc5, r.o.Ms, r.o.Solver)
+		}
+	}
+	fmt.Printf("STABILITY property=%s obligations=%d fragile=%d\n", id, len(todo), fragile)
+	return 0
 }
